@@ -54,12 +54,17 @@ def gen_param_value(r, family, depth=0):
         if r.random() < 0.3:
             kw['debug'] = r.random() < 0.5
         return {'class': 'tcw.objs.PDef', 'kwargs': kw}
+    if family == 'objlist':
+        items = [gen_param_value(r, 'obj') for _ in range(r.choice([1, 1, 2]))] + [gen_param_value(r, 'int') for _ in range(r.choice([0, 1]))]
+        if r.random() < 0.4:
+            return {'k0': items[0], 'k1': r.choice([1, 'z'])}
+        return items
     if family == 'objset':
         return {'class': 'tcw.objs.PSet', 'kwargs': {'tags': r.sample(['red', 'green', 'blue', 'cyan', 'magenta', 'yellow', 'black'], r.randint(2, 5))}}
     raise ValueError(family)
 
 
-FAMILIES = ['int', 'int', 'str', 'float', 'bool', 'list', 'dict', 'none_or_int', 'placeholder', 'obj']
+FAMILIES = ['int', 'int', 'str', 'float', 'bool', 'list', 'dict', 'none_or_int', 'placeholder', 'obj', 'objlist']
 
 
 def obj_equiv(a, b):
@@ -78,7 +83,7 @@ def distinct_pool(r, family, n):
     while len(pool) < n and tries < 50:
         tries += 1
         v = gen_param_value(r, family)
-        if family in ('obj', 'objset'):
+        if family in ('obj', 'objset', 'objlist'):
             v = _norm_obj(v) if r.random() < 0.5 else v
             if all(not obj_equiv(v, w) for w in pool):
                 pool.append(v)
@@ -127,8 +132,16 @@ def gen_world(r, knobs=None):
         slots = []
         clos = {pi}
         rch = [('', pi)]
+        twin = None
+        if pi > 0 and r.random() < k.get('p_twin', 0.2) and len(ns_names) >= 2:
+            pj = r.randrange(pi)
+            for _ in range(2):
+                ns = ns_names.pop()
+                slots.append({'pipe': pj, 'ns': ns})
+                rch += [(A.join_ns(ns, rel) or '', q) for rel, q in reach[pj]]
+            twin = (len(slots) - 2, len(slots) - 1)
         if pi > 0:
-            for _ in range(r.choice([0, 1, 1, 2])):
+            for _ in range(r.choice([0, 1, 1, 2]) if twin is None else r.choice([0, 1])):
                 pj = r.randrange(pi)
                 if r.random() < k['p_ns_slot'] and ns_names:
                     ns = ns_names.pop()
@@ -189,7 +202,7 @@ def gen_world(r, knobs=None):
                 if fam == 'placeholder':
                     p['placeholder'] = True
                     p['dpd'] = False
-                if fam in ('obj', 'objset'):
+                if fam in ('obj', 'objset', 'objlist'):
                     # default values are python objects in real code; keep object parameters required or default None
                     p['dpd'] = False
                     if p['default'] != A.NO_DEFAULT:
@@ -206,8 +219,13 @@ def gen_world(r, knobs=None):
             r.shuffle(cands)
             used_cls = set()
             style = r.choice(k['styles'])
+            if twin is not None and r.random() < 0.6:
+                # the same upstream task from two namespaces: distinguishable by position only
+                style = 'index'
+                tc = r.choice(pipelines[slots[twin[0]]['pipe']]['classes'])
+                cands = [(slots[twin[0]]['ns'], tc), (slots[twin[1]]['ns'], tc)] + [c_ for c_ in cands if c_[1] != tc]
             used_rel = set()
-            for rel, c2 in cands[: r.choice([0, 1, 1, 2, 3])]:
+            for rel, c2 in cands[: r.choice([0, 1, 1, 2, 3]) if not (twin is not None and style == 'index') else r.choice([2, 3])]:
                 if c2 in used_cls and (style != 'index' or (rel, c2) in used_rel):
                     continue    # the same task twice (under different namespaces) can only be told apart by index
                 used_cls.add(c2)
@@ -237,7 +255,7 @@ def gen_world(r, knobs=None):
                 'nlog': r.choice([0, 1, 2]), 'cont_steps': r.choice([1, 1, 2, 3]) if kind == 'cont' else 0,
             })
             cids.append(cid)
-        pipelines.append({'classes': cids, 'slots': slots})
+        pipelines.append({'classes': cids, 'slots': slots, 'twin': twin})
     # configs: 1-3 per pipeline, bottom-up so fills exist
     configs = []
     cfg_of_pipe = {pi: [] for pi in range(n_pipes)}
@@ -253,6 +271,14 @@ def gen_world(r, knobs=None):
             ci = len(configs)
             configs.append({'name': f'cfg{ci}', 'pipe': pi, 'values': vals, 'fills': fills})
             cfg_of_pipe[pi].append(ci)
+            tw = pipelines[pi].get('twin')
+            if tw and fills[tw[0]] != fills[tw[1]] and r.random() < 0.8:
+                # the same pipeline with the two mounted configs swapped: a different computation downstream
+                f2 = list(fills)
+                f2[tw[0]], f2[tw[1]] = f2[tw[1]], f2[tw[0]]
+                ci2 = len(configs)
+                configs.append({'name': f'cfg{ci2}', 'pipe': pi, 'values': dict(vals), 'fills': f2})
+                cfg_of_pipe[pi].append(ci2)
     # roots: prefer configs of late pipelines (bigger chains)
     roots = []
     n_roots = r.randint(*k['n_roots'])
